@@ -213,8 +213,8 @@ var registry = []propertySpec{
 		ID:    "C14",
 		Files: map[string][]string{"": {"zz_verif_lib.go", "zz_verif_c14.go"}, "html": {"zz_verif_html_lib.go", "zz_verif_c14.go"}},
 		Harnesses: []harnessSpec{
-			{Name: "VerifC14_Publish", Pkg: "html", Quick: tierSpec{Cases: 24}, Thorough: tierSpec{Cases: 24}, Sched: -1,
-				Bounds: "publish (all page groups, one job) in show / hide / placeholder mode on 6 decodable files: well-formed, dangling and wrong-kind references with empty values, missing and odd names, a living person who is their own parent and spouse, duplicate pointers with unparsable dates, empty file, and a dead person whose surname starts with a symbolic two-byte character U+00C0..U+00FF or a symbolic printable ASCII byte"},
+			{Name: "VerifC14_Publish", Pkg: "html", Quick: tierSpec{Cases: 27}, Thorough: tierSpec{Cases: 27}, Sched: -1,
+				Bounds: "publish (all page groups, one job) in show / hide / placeholder mode on 6 decodable files: well-formed, dangling and wrong-kind references with empty values, missing and odd names, a living person who is their own parent and spouse, duplicate pointers with unparsable dates, empty file, and a dead person whose surname starts with a symbolic two-byte character U+00C0..U+00FF or a symbolic printable ASCII byte, or whose whole surname is one or two symbolic bytes over 8 characters (blank, symbols, digit, letter)"},
 			{Name: "VerifC14_Library", Quick: tierSpec{Cases: 6}, Thorough: tierSpec{Cases: 6}, Sched: -1,
 				Bounds: "a 3-person / 2-family / 1-source file in which one of the five reference values (FAMS, FAMC, HUSB, WIFE, CHIL) is 0..4 symbolic bytes over {@,I,F,1,2,x}; 7 NAME forms and 7 DATE forms by choice; warnings, an accessor sweep over individuals, families, names, sources, places, similarity and node diff"},
 			{Name: "VerifC14_Compare", Quick: tierSpec{Cases: 6}, Thorough: tierSpec{Cases: 6}, Sched: -1,
